@@ -34,6 +34,12 @@ def cases(tier, seed):
             for rule in ("Rating", "Limited", "Cumulative", "Approval", "BlocPlurality"):
                 m = 1 + (i % 3)
                 cs.append((rule, bl, m, (1, 2, 3)[i % 3], (1, 2)[i % 2], (None, "random")[i % 2], None))
+    # non-unit weights that add up to the number of ballots (weights must multiply the scores all the same)
+    for rule in ("Rating", "Limited", "Cumulative", "Approval", "BlocPlurality"):
+        for wts in ((F(1, 2), F(3, 2)), (F(1, 3), F(2, 3), F(2)), (F(0), F(2))):
+            cards2 = [{"A": F(1), "B": F(1, 2)}, {"B": F(1)}, {"C": F(1), "A": F(1, 2)}][:len(wts)]
+            for m in (1, 2):
+                cs.append((rule, [(c, w) for c, w in zip(cards2, wts)], m, 2, 2, "random", None))
     # totals whose exact value has a denominator far above 10^6
     for rule in ("Rating", "Limited", "Cumulative", "Approval", "BlocPlurality"):
         big = [({"A": F(1, 11), "B": F(1, 13)}, F(3, 7)), ({"A": F(1, 17), "C": F(1, 19)}, F(5, 13)), ({"B": F(1, 23), "C": F(1, 29)}, F(2, 19)),
@@ -48,7 +54,7 @@ def cases(tier, seed):
                 for L in (1, 2):
                     valid = [({"A": F(1, 2)}, F(1)), ({"B": F(1, 2), "C": F(1, 4)}, F(3, 2)), ({"C": F(1, 2)}, F(2, 7))]
                     for pos in range(3):
-                        for how in ("over-L", "at-L", "negative", "over-k", "at-k", "no-scores"):
+                        for how in ("over-L", "at-L", "negative", "over-k", "over-k-tiny", "at-k", "no-scores"):
                             cs.append((rule, valid, m, kk, L, "random", (pos, how)))
     return cs
 
@@ -96,6 +102,13 @@ def check_case(case):
             d = {"A": lim}
         elif how == "negative":
             d = dict(d, B=-EPS)
+        elif how == "over-k-tiny":
+            if bud is None or bud > 2 * lim:
+                return {"evals": 0, "key": None, "nontrivial": False, "violations": []}
+            tiny = F(1, 999999000000)
+            d = {"A": min(lim, bud) - F(1, 1000000), "B": bud - (min(lim, bud) - F(1, 1000000)) + tiny}
+            if d["B"] > lim or d["A"] <= 0:
+                return {"evals": 0, "key": None, "nontrivial": False, "violations": []}
         elif how == "over-k":
             if bud is None:
                 return {"evals": 0, "key": None, "nontrivial": False, "violations": []}
